@@ -30,13 +30,20 @@ Section WithEvalS.
     | [] => (Val lastv, o)
     | f :: rest => match ev en o f with (Val v, o1) => eval_bodyS en o1 rest v | r => r end
     end.
+  (* forms evaluated one after the other for the value of the last (clause of `case`); an empty list
+     value counts as nil *)
+  Fixpoint eval_seqS (en : env) (o : list value) (forms : list sexp) (lastv : value) : res * list value :=
+    match forms with
+    | [] => (Val lastv, o)
+    | f :: rest => match ev en o f with (Val v, o1) => eval_seqS en o1 rest (norm v) | r => r end
+    end.
   Definition eval_ifS (en : env) (o : list value) (args : list sexp) : res * list value :=
     let go (c a : sexp) (b : option sexp) :=
       match ev en o c with
       | (Val v, o1) =>
-          match (if truthy v then Some a else b) with
+          match (if truthy (norm v) then Some a else b) with
           | None => (Val VNil, o1)
-          | Some x => ev en o1 x
+          | Some x => match ev en o1 x with (Val w, o2) => (Val (norm w), o2) | r => r end
           end
       | r => r
       end in
@@ -53,7 +60,7 @@ Section WithEvalS.
         | (AVals [key], o1) =>
             match select_clause key clauses with
             | None => (Err EBadForm, o1)
-            | Some forms => eval_bodyS en o1 forms VNil
+            | Some forms => eval_seqS en o1 forms VNil
             end
         | (AVals _, o1) => (Err EBadForm, o1)
         | (AStop r, o1) => (r, o1)
@@ -68,6 +75,7 @@ Fixpoint evalS (n : nat) (ft : ftab) (en : env) (o : list value) (e : sexp) : re
       match e with
       | SInt z => (Val (VInt z), o)
       | SSym x => (sym_value en x, o)
+      | SGlob x => (glob_value en x, o)
       | SList _ (SSym f :: args) =>
           match builtin_of f with
           | Some BIf => eval_ifS (evalS n' ft) en o args
@@ -94,41 +102,53 @@ Fixpoint evalS (n : nat) (ft : ftab) (en : env) (o : list value) (e : sexp) : re
   end.
 
 (* ---- top level -------------------------------------------------------------------------------- *)
-Fixpoint run_formsS (n : nat) (ft : ftab) (o : list value) (fs : list tform) (lastv : value) : res * list value * ftab :=
+Fixpoint run_formsS (n : nat) (ft : ftab) (gv : env) (o : list value) (fs : list tform) (lastv : value)
+  : res * list value * ftab * env :=
   match fs with
-  | [] => (Val lastv, o, ft)
-  | TQuote nm :: r => run_formsS n ft o r (VSym nm)
+  | [] => (Val lastv, o, ft, gv)
+  | TQuote nm :: r => run_formsS n ft gv o r (VSym nm)
   | TForm e :: r =>
       match parse_defun e with
-      | Some (nm, ps, body) => run_formsS n ((nm, (ps, body)) :: ft) o r (VSym nm)
-      | None => match evalS n ft [] o e with (Val v, o1) => run_formsS n ft o1 r v | (x, o1) => (x, o1, ft) end
+      (* the variable table is kept identical to the implementation's: entries without a value, which a
+         definition may create, are invisible to symbol evaluation and to defvar *)
+      | Some (nm, ps, body) => run_formsS n ((nm, (ps, body)) :: ft) (snd (globalize_body gv ps body)) o r (VSym nm)
+      | None =>
+          match parse_gdef e with
+          | Some (always, nm, z) => run_formsS n ft (gdef gv always nm z) o r (VSym nm)
+          | None => match evalS n ft gv o e with (Val v, o1) => run_formsS n ft gv o1 r v | (x, o1) => (x, o1, ft, gv) end
+          end
       end
   end.
 (* compiling a code object = making its definitions now (code.go: "This evaluates all the defun ...") *)
-Fixpoint compile_defsS (ft : ftab) (fs : list tform) : ftab * list tform :=
+Fixpoint compile_defsS (ft : ftab) (gv : env) (fs : list tform) : ftab * env * list tform :=
   match fs with
-  | [] => (ft, [])
+  | [] => (ft, gv, [])
   | TForm e :: r =>
       match parse_defun e with
-      | Some (nm, ps, body) => let (ft', r') := compile_defsS ((nm, (ps, body)) :: ft) r in (ft', TQuote nm :: r')
-      | None => let (ft', r') := compile_defsS ft r in (ft', TForm e :: r')
+      | Some (nm, ps, body) =>
+          let '(ft', gv', r') := compile_defsS ((nm, (ps, body)) :: ft) (snd (globalize_body gv ps body)) r in (ft', gv', TQuote nm :: r')
+      | None =>
+          match parse_gdef e with
+          | Some (always, nm, z) => let '(ft', gv', r') := compile_defsS ft (gdef gv always nm z) r in (ft', gv', TQuote nm :: r')
+          | None => let '(ft', gv', r') := compile_defsS ft gv r in (ft', gv', TForm e :: r')
+          end
       end
-  | t :: r => let (ft', r') := compile_defsS ft r in (ft', t :: r')
+  | t :: r => let '(ft', gv', r') := compile_defsS ft gv r in (ft', gv', t :: r')
   end.
-Record sstate := mkS { sft : ftab; scodes : list (nat * list tform) }.
-Definition sinit : sstate := mkS [] [].
+Record sstate := mkS { sft : ftab; sgv : env; scodes : list (nat * list tform) }.
+Definition sinit : sstate := mkS [] [] [].
 Definition stepS (n : nat) (s : sstate) (o : op) : sstate * option obs :=
   match o with
-  | OLoad cid forms => (mkS (sft s) ((cid, map TForm forms) :: scodes s), None)
+  | OLoad cid forms => (mkS (sft s) (sgv s) ((cid, map TForm forms) :: scodes s), None)
   | OCompile cid =>
       match nlookup cid (scodes s) with
       | None => (s, None)
-      | Some fs => let (ft', fs') := compile_defsS (sft s) fs in (mkS ft' ((cid, fs') :: scodes s), None)
+      | Some fs => let '(ft', gv', fs') := compile_defsS (sft s) (sgv s) fs in (mkS ft' gv' ((cid, fs') :: scodes s), None)
       end
   | ORun cid =>
       match nlookup cid (scodes s) with
       | None => (s, None)
-      | Some fs => let '(r, o1, ft') := run_formsS n (sft s) [] fs VNil in (mkS ft' (scodes s), Some (r, o1))
+      | Some fs => let '(r, o1, ft', gv') := run_formsS n (sft s) (sgv s) [] fs VNil in (mkS ft' gv' (scodes s), Some (r, o1))
       end
   end.
 Fixpoint runS (n : nat) (s : sstate) (ops : list op) : list obs :=
@@ -147,6 +167,7 @@ Fixpoint sexp_eqb (x y : sexp) {struct x} : bool :=
   match x, y with
   | SInt z, SInt z' => Z.eqb z z'
   | SSym s, SSym s' => String.eqb s s'
+  | SGlob s, SGlob s' => String.eqb s s'
   | SList i xs, SList j ys =>
       Nat.eqb i j && (fix eql (xs ys : list sexp) {struct xs} : bool :=
                         match xs, ys with
@@ -183,31 +204,43 @@ Definition comparable (r : res) : bool := match r with Err EUndefined => false |
 Definition is_val (r : res) : bool := match r with Val _ => true | _ => false end.
 
 (* (G1) followed along the model run *)
-Fixpoint guard_forms (n : nat) (st : state) (fs : list tform) : bool :=
+(* (G3) every bare symbol among the body forms is a parameter or names a package variable that exists when
+   the definition is evaluated (so Lambda.Compile leaves it a symbol) *)
+Definition g_body (gv : env) (ps : list string) (body : list sexp) : bool :=
+  forallb (fun f => match f with SSym x => keep_sym gv ps x | _ => true end) body.
+Fixpoint guard_forms (n : nat) (st : state) (gv : env) (fs : list tform) : bool :=
   match fs with
   | [] => true
-  | TQuote _ :: r => guard_forms n st r
+  | TQuote _ :: r => guard_forms n st gv r
   | TForm e :: r =>
       match parse_defun e with
-      | Some (nm, ps, body) => g_defun st nm ps body && guard_forms n (defunM st nm ps body) r
-      | None => match evalM n st [] e with (Val _, st1) => guard_forms n st1 r | _ => true end
+      | Some (nm, ps, body) => g_body gv ps body && g_defun st nm ps body && guard_forms n (defunM st nm ps body) gv r
+      | None =>
+          match parse_gdef e with
+          | Some (always, nm, z) => guard_forms n st (gdef gv always nm z) r
+          | None => match evalM n st gv e with (Val _, st1) => guard_forms n st1 gv r | _ => true end
+          end
       end
   end.
-Fixpoint guard_defs (st : state) (fs : list tform) : bool :=
+Fixpoint guard_defs (st : state) (gv : env) (fs : list tform) : bool :=
   match fs with
   | [] => true
   | TForm e :: r =>
       match parse_defun e with
-      | Some (nm, ps, body) => g_defun st nm ps body && guard_defs (defunM st nm ps body) r
-      | None => guard_defs st r
+      | Some (nm, ps, body) => g_body gv ps body && g_defun st nm ps body && guard_defs (defunM st nm ps body) gv r
+      | None =>
+          match parse_gdef e with
+          | Some (always, nm, z) => guard_defs st (gdef gv always nm z) r
+          | None => guard_defs st gv r
+          end
       end
-  | _ :: r => guard_defs st r
+  | _ :: r => guard_defs st gv r
   end.
 Definition guard_op (n : nat) (m : mstate) (o : op) : bool :=
   match o with
   | OLoad _ _ => true
-  | OCompile cid => match nlookup cid (codes m) with Some fs => guard_defs (ms m) fs | None => true end
-  | ORun cid => match nlookup cid (codes m) with Some fs => guard_forms n (set_out (ms m) []) fs | None => true end
+  | OCompile cid => match nlookup cid (codes m) with Some fs => guard_defs (ms m) (mgv m) fs | None => true end
+  | ORun cid => match nlookup cid (codes m) with Some fs => guard_forms n (set_out (ms m) []) (mgv m) fs | None => true end
   end.
 Fixpoint guard_ops (n : nat) (m : mstate) (ops : list op) : bool :=
   match ops with
